@@ -322,7 +322,14 @@ def rule_py_siblings(ctx, py):
     ctx.need(len(rets) == 2, R, "compute_diffusion_rates: the two returning branches not found")
     for r, (kf_, kr_) in zip(rets, (("kf", "kr"), ("k", "k"))):
         e0, e1 = r.value.elts
-        s0, s1 = pyfe.src(e0).replace(" ", ""), pyfe.src(e1).replace(" ", "")
+        import re as _re
+
+        class _Keep(set):           # a helper's local renamed at inlining (`x__h2`) is that local
+            def __contains__(self_, k_):
+                return set.__contains__(self_, _re.sub(r"__h\d+$", "", k_))
+        keep = _Keep({"kf", "kr", "k", "state", "src_state_index", "dst_state_index", "units_system"})
+        s0, s1 = (_re.sub(r"__h\d+", "", pyfe.src(pysym.reach(e_, r, h, stop=keep))).replace(" ", "")
+                  for e_ in (e0, e1))                                                          # named results written out
         ok = s0 in ("(%s*state.get_at(src_state_index)).convert(units_system)" % kf_,
                     "(state.get_at(src_state_index)*%s).convert(units_system)" % kf_) and \
             s1 in ("(%s*state.get_at(dst_state_index)).convert(units_system)" % kr_,
